@@ -873,6 +873,105 @@ func c16Worker(c *shard.Ctx) {
 		}
 	}
 	c16Grammar2(c, a, &idx)
+	c16Grammar3(c, &idx)
+}
+
+// ---------------------------------------------------------------------------
+// grammar 3: numbers as item conditions.  The statement does not say which branch a number selects, so
+// that is not judged; what is judged is that the branch does not depend on the Go type that happens to
+// carry the number (0 as int, int64, float64; 7 likewise): every rendering must equal the rendering with
+// the values given as int.  (seed C16-d2)
+
+var c16NumTemplates = []string{
+	"{{#each L}}{{#if f}}A{{else}}B{{/if}}{{/each}}",
+	"{{#each L}}{{#if f}}A{{/if}}x{{/each}}",
+	"{{#each L}}{{n}}:{{#each sub}}{{#if f}}A{{else}}B{{/if}}{{/each}};{{/each}}",
+	"{{#each L}}{{#if f}}{{f}}{{else}}-{{f}}{{/if}} {{/each}}",
+}
+
+func c16Num(typ int, v int) interface{} {
+	switch typ {
+	case 0:
+		return v
+	case 1:
+		return int64(v)
+	}
+	return float64(v)
+}
+
+var c16NumTypes = []string{"int", "int64", "float64"}
+
+func c16NumRender(text string, zt, nt int) ([]string, string) {
+	var tok []string
+	fail := ""
+	document.VerifResetGlobals()
+	p := guard(func() {
+		eng := document.NewTemplateEngine()
+		if _, err := eng.LoadTemplate("t", text); err != nil {
+			fail = "error:load"
+			return
+		}
+		z, n := c16Num(zt, 0), c16Num(nt, 7)
+		td := document.NewTemplateData()
+		td.SetList("L", []interface{}{
+			map[string]interface{}{"n": "i0", "f": z, "sub": []interface{}{map[string]interface{}{"f": z}, map[string]interface{}{"f": n}}},
+			map[string]interface{}{"n": "i1", "f": n, "sub": []interface{}{map[string]interface{}{"f": n}, map[string]interface{}{"f": z}}},
+		})
+		doc, err := eng.RenderToDocument("t", td)
+		if err != nil || doc == nil || doc.Body == nil {
+			fail = "error:render"
+			return
+		}
+		for _, x := range doc.Body.GetParagraphs() {
+			var t strings.Builder
+			for _, r := range x.Runs {
+				t.WriteString(r.Text.Content)
+			}
+			tok = append(tok, t.String())
+		}
+	})
+	if p != "" {
+		return nil, "panic:" + panicClass(p)
+	}
+	return tok, fail
+}
+
+func c16Grammar3(c *shard.Ctx, idx *int64) {
+	for ti, text := range c16NumTemplates {
+		for zt := 0; zt < 3; zt++ {
+			for nt := 0; nt < 3; nt++ {
+				ti, text, zt, nt := ti, text, zt, nt
+				dataS := fmt.Sprintf("item field f: zero as %s, seven as %s", c16NumTypes[zt], c16NumTypes[nt])
+				my := c.Begin(*idx, func() interface{} { return c16Desc{Grammar: "numeric-conditions", Template: text, Data: dataS} })
+				i := *idx
+				*idx++
+				if !my {
+					continue
+				}
+				p := c.P
+				key := rep.Hash("g3", text, fmt.Sprint(zt, nt))
+				p.Keys = append(p.Keys, key)
+				p.Nontrivial = append(p.Nontrivial, key)
+				p.Evals++
+				p.Transitions += 2
+				p.Traces++
+				ref, rf := c16NumRender(text, 0, 0)
+				got, gf := c16NumRender(text, zt, nt)
+				if rf == gf && c16Eq(ref, got) {
+					p.Outcome("numeric-condition=>same-as-int")
+					continue
+				}
+				p.Outcome("numeric-condition=>differs")
+				which := c16NumTypes[zt]
+				if zt == 0 {
+					which = c16NumTypes[nt]
+				}
+				p.Violate(rep.Violation{Sig: fmt.Sprintf("numeric-condition-depends-on-go-type|template=%d|%s", ti, which), Clause: "the branch kept depends on the condition, not on its Go representation",
+					What:  fmt.Sprintf("template %q with %s renders %q %s, with both numbers as int it renders %q %s", text, dataS, got, gf, ref, rf),
+					Depth: int(i), Case: shardCase(c, "c16", i, c16Desc{Grammar: "numeric-conditions", Template: text, Data: dataS}), Expect: ref, Got: got})
+			}
+		}
+	}
 }
 
 func c16Case1(c *shard.Ctx, a c16Args, idx int64, ns []*c16N) {
@@ -1256,7 +1355,8 @@ func runC16(r *rep.Run) {
 	r.Assume = []string{
 		"output encoding (the one deliberate abstraction): paragraphs = lines of the rendered text; a whitespace-only line equals an empty line; a text consisting of blank lines only equals no paragraphs; an image placeholder splits its line into optional non-blank text, image paragraph, optional non-blank text",
 		"global names (v,u,w / ct,cf,cm / L,S,E,M) and item field names (f,g,b,n,k / h,c) are disjoint, so shadowing is unobservable",
-		"conditions outside loops name global conditions; conditions inside a loop body name boolean fields of the current item (or absent fields); truthiness of other types is not documented and not generated",
+		"conditions outside loops name global conditions; conditions inside a loop body name boolean fields of the current item (or absent fields); truthiness of other types is not documented and not generated in the main grammar",
+		"numbers as item conditions (third grammar, 4 templates x 9 type assignments): which branch a number selects is not judged; only that the rendering with 0 and 7 carried as int64 or float64 equals the rendering with both carried as int",
 		"If directly inside If is not generated (the documented grammar has no nested conditionals); If inside Each only for map items; {{this}} only for scalar items",
 		"inner loop bodies may use fields of the outer item (documented: inner loops can access outer loop variables)",
 		"literal text never forms directive syntax: two equal brace characters are never adjacent",
